@@ -44,6 +44,40 @@ pub ghost struct Tables<S, T, R, N, A> {
     pub fallible: bool,
 }
 
+/// the payloads of the first c items of a token stream prefix (all `Ok`)
+pub open spec fn oks<A, E>(r: Seq<Result<A, E>>, c: int) -> Seq<A> {
+    Seq::new(c as nat, |j: int| r[j]->Ok_0)
+}
+/// every token an error recovery has looked at so far, in input order: the offending lookahead (if any)
+/// followed by the c tokens pulled since
+pub open spec fn seen<A, E>(la0: Option<A>, r: Seq<Result<A, E>>, c: int) -> Seq<A> {
+    (match la0 { Some(t) => seq![t], None => Seq::<A>::empty() }) + oks(r, c)
+}
+
+/// the first n items of a token stream prefix are all `Ok`
+pub open spec fn all_ok<A, E>(r: Seq<Result<A, E>>, n: int) -> bool {
+    forall|j: int| 0 <= j < n ==> (#[trigger] r[j]) is Ok
+}
+pub proof fn lemma_all_ok_skip<A, E>()
+    ensures forall|s: Seq<Result<A, E>>, a: int, c: int| #![trigger all_ok(s.skip(a), c)]
+        (0 <= a && 0 <= c && a + c <= s.len() && all_ok(s, a) && all_ok(s.skip(a), c)) ==> all_ok(s, a + c),
+{
+    assert forall|s: Seq<Result<A, E>>, a: int, c: int| #![trigger all_ok(s.skip(a), c)]
+        (0 <= a && 0 <= c && a + c <= s.len() && all_ok(s, a) && all_ok(s.skip(a), c)) implies all_ok(s, a + c) by {
+        assert forall|j: int| 0 <= j < a + c implies (#[trigger] s[j]) is Ok by {
+            if j >= a { assert(s.skip(a)[j - a] is Ok); }
+        }
+    }
+}
+
+pub proof fn lemma_skip_skip<A>()
+    ensures forall|s: Seq<A>, a: int, b: int| #![trigger s.skip(a).skip(b)] 0 <= a && 0 <= b && a + b <= s.len() ==> s.skip(a).skip(b) == s.skip(a + b),
+{
+    assert forall|s: Seq<A>, a: int, b: int| #![trigger s.skip(a).skip(b)] 0 <= a && 0 <= b && a + b <= s.len() implies s.skip(a).skip(b) == s.skip(a + b) by {
+        assert(s.skip(a).skip(b) =~= s.skip(a + b));
+    }
+}
+
 pub proof fn lemma_seq_sub_last<S>()
     ensures forall|st: Seq<S>, k: int| #![trigger st.subrange(0, k)] 0 < k <= st.len() ==> st.subrange(0, k).last() == st[k - 1] && st.subrange(0, k).len() == k,
 {
